@@ -260,6 +260,15 @@ func visitInstr(fr *frame, instr ssa.Instruction) continuation {
 		// Sequential model: the goroutine runs to completion at the go statement (one legal schedule).
 		fn, args := prepareCall(fr, &instr.Call)
 		fr.p.stats.GoStmts++
+		if r := fr.p.race; r != nil && r.active {
+			// lock-set analysis: the goroutine is a logical thread of its own (it holds none of the spawner's locks)
+			saved := fr.p.thread
+			r.nextThread++
+			fr.p.thread = 100 + r.nextThread
+			call(fr.p, fr, instr.Pos(), fn, args)
+			fr.p.thread = saved
+			break
+		}
 		call(fr.p, fr, instr.Pos(), fn, args)
 
 	case *ssa.MakeChan:
